@@ -80,7 +80,7 @@ def work_init(init: dict) -> None:
 
 def _observe(xml: str) -> dict:
     from xml.etree import ElementTree as ET
-    from vlib.worker import CpuBudget, arm_cpu, disarm_cpu
+    from vlib.worker import arm_cpu, disarm_cpu
     f = _EV["fn"]
     ob = {"attempts": 0}
     for attempt in (0, 1):
@@ -94,12 +94,15 @@ def _observe(xml: str) -> dict:
         try:
             arm_cpu(10 * budget + 2.0)
             o1 = f(t1)
-        except CpuBudget:
-            ob["hang"] = True
-            o1 = None
         except Exception as e:
             ob["exc"] = type(e).__name__
             ob["msg"] = str(e)[:200]
+            o1 = None
+        except BaseException as e:
+            # the worker runs as __main__, so its CpuBudget class is not vlib.worker.CpuBudget: match by name
+            if type(e).__name__ != "CpuBudget":
+                raise
+            ob["hang"] = True
             o1 = None
         finally:
             disarm_cpu()
@@ -574,6 +577,10 @@ def main(run):
                 hangs.append(it["i"])
     if broken:
         return
+    if len(retry) > 600:
+        run.count("retry_items_dropped", len(retry) - 600)
+        run.inconclusive(f"{len(retry)} trees were in batches that died or stalled; only 600 re-run one by one")
+        retry = retry[:600]
     if retry:
         run.count("batches_rerun_itemwise", len(retry))
         for case, ob in pool.run_cases("checks.c19:work", retry, deadline_s=120, rlimit_as=2 << 30):
